@@ -1,5 +1,6 @@
 pub mod c01;
 pub mod c02;
+pub mod c04;
 pub mod c05;
 pub mod c14;
 
@@ -15,6 +16,8 @@ pub fn run(id: &str, replay: Option<&str>) -> i32 {
         ("C02", Some(p)) => c02::replay(p, c02::Which::C02),
         ("C14", None) => c14::run(started),
         ("C14", Some(p)) => c14::replay(p),
+        ("C04", None) => c04::run(started),
+        ("C04", Some(p)) => c04::replay(p),
         ("C05", None) => c05::run(started),
         ("C05", Some(p)) => c02::replay(p, c02::Which::C05),
         _ => {
